@@ -793,13 +793,13 @@ class Group(System):
         self._has_resid_scaling = False
         self._has_bounds = False
 
-        _has_applied_options = set()
+        # apply all of the cached options before collecting the flags, because a system can set the
+        # options of outputs that are more than one level below it.
+        for subsys in self.system_iter(include_self=True, recurse=True):
+            subsys._apply_output_solver_options()
+
         for grp in self.system_iter(include_self=True, recurse=True, depth_first=True, typ=Group):
             for subsys in grp.system_iter(include_self=True, recurse=False):
-                if subsys.pathname not in _has_applied_options:
-                    subsys._apply_output_solver_options()
-                    _has_applied_options.add(subsys.pathname)
-
                 grp._has_output_scaling |= subsys._has_output_scaling
                 grp._has_output_adder |= subsys._has_output_adder
                 grp._has_resid_scaling |= subsys._has_resid_scaling
